@@ -38,6 +38,13 @@ class GenCM:
         self.fn, self.env, self.ci, self.qual = fn, env, ci, qual
 
 
+class StarArgs:
+    """`*seq` of symbolic length handed to a contract-supplied callee model (additive, C06)"""
+
+    def __init__(self, seq):
+        self.seq = seq
+
+
 class SuperProxy:
     """zero-argument super() inside a method of an in-scope class (additive, C41): attribute calls go to the contract-supplied
     model of the (library) base class through extra_builtins["method:<name>"] with the proxy as first argument"""
@@ -1072,7 +1079,13 @@ class Interp:
         args = []
         for a in n.args:
             if isinstance(a, ast.Starred):
-                args.extend(self.iter_concrete(self.eval(a.value, env)))
+                sv = self.eval(a.value, env)
+                if isinstance(sv, SeqV) and isinstance(f, FuncRef) and f.kind == "builtin" and f.name in self.world.extra_builtins:
+                    # *seq of SYMBOLIC length into a contract-supplied callee model (additive, C06): the model receives the whole
+                    # sequence as one StarArgs value and must account for every element
+                    args.append(StarArgs(sv))
+                else:
+                    args.extend(self.iter_concrete(sv))
             else:
                 args.append(self.eval(a, env))
         kwargs = {}
